@@ -653,6 +653,17 @@ func checkNesting(r *ev.Run, parent []int, axis, dir, corner int, tall bool) {
 			for z := 0.17; z < zmax; z += zmax / 21 {
 				p := model3d.XYZ(x, y, z)
 				cnt := 0
+				onFace := false
+				for _, b := range boxes {
+					for ax := 0; ax < 3; ax++ {
+						if math.Abs(p.Array()[ax]-b.min.Array()[ax]) < 1e-9 || math.Abs(p.Array()[ax]-b.max.Array()[ax]) < 1e-9 {
+							onFace = true // in the plane of a face: membership of surface points is not defined
+						}
+					}
+				}
+				if onFace {
+					continue
+				}
 				for _, b := range boxes {
 					if p.X > b.min.X && p.Y > b.min.Y && p.Z > b.min.Z && p.X < b.max.X && p.Y < b.max.Y && p.Z < b.max.Z {
 						cnt++
